@@ -34,6 +34,9 @@ PROP = "C16"
 
 ALL_CLASSES = {"a", "ff", "eac", "cur", "nel", "A1", "eur", "ls", "zw", "so", "hi", "ast"}
 ALL_LAYOUTS = {"none", "p1", "p2s", "p2b", "p2p", "p2x", "p3"}
+# lengths the renderer gives to the run the spec calls PadMark: the first line ("# " + run) is 4094, 4095,
+# 4096 and 5000 characters long (around the 4 KiB a tool may sniff), and 5 as a control
+PAD_LENGTHS = (3, 4092, 4093, 4094, 4998)
 ALL_OPS = {"rwb-write", "rwb-force", "edit", "insert", "delete", "rename"}
 BASE = {"NLs": {"LF", "CRLF", "CR"}, "Finals": {True, False}, "Boms": {True, False},
         "InsertKinds": {"com"}, "UndoModes": {"session"}, "RestoreNL": True, "KeepBom": True,
@@ -52,6 +55,13 @@ CONVERT = ("convert", dict(BASE, Classes={"eac"}, Cookies=tlc.Sub("MCCookiesLati
                            AllowConvert=True))
 
 
+# a very long first line (comment), alone or before the coding line: the file's convention and
+# encoding must not depend on how far into the file the first line break is
+LONGLINE = ("longline", dict(BASE, Classes={"eac"}, Cookies=tlc.Sub("MCCookiesLatin"), Layouts={"l1", "p2l"},
+                             BodyKinds={"def", "com"}, MaxBody=1, MaxPayload=1, MaxChars=1, NewNames={"long"},
+                             Ops={"rwb-force", "edit", "insert", "rename"}))
+
+
 def slices(tier):
     """The bounded models.  Two slices keep the product tractable: `cookies`
     crosses coding-line forms, spellings and positions with a small body;
@@ -65,7 +75,7 @@ def slices(tier):
                              Cookies=tlc.Sub("MCCookiesPlain"), Layouts={"none", "p1"},
                              BodyKinds={"def", "use", "com"}, MaxBody=2, MaxPayload=1, MaxChars=1,
                              NewNames={"long", "lat"}, Ops=ALL_OPS, UndoModes={"session", "reopen"})),
-            CONVERT,
+            CONVERT, LONGLINE,
         ]
     return [
         ("cookies", dict(BASE, Classes={"eac", "eur", "A1", "so"}, Cookies=tlc.Sub("MCCookiesAll"),
@@ -82,7 +92,7 @@ def slices(tier):
                        Layouts={"none", "p1"}, BodyKinds={"def", "use", "com", "two"},
                        MaxBody=3, MaxPayload=1, MaxChars=1, NewNames={"long", "lat"}, Ops=ALL_OPS,
                        UndoModes={"session", "reopen"})),
-        CONVERT,
+        CONVERT, LONGLINE,
     ]
 
 
@@ -196,8 +206,47 @@ BOMCH = "\ufeff"
 NEW_NAMES = {"long": "renamed", "short": "n", "lat": "n\xe9", "cjk": "ソ"}
 
 
-def run_behaviour(beh):
+def expand(beh):
+    """Render the spec's PadMark as a run of `padlen` letters, in every byte string and text alike."""
+    k = beh.get("padlen")
+    if not k:
+        return beh
+    mark = beh["padmark"]
+    out = dict(beh)
+    for f in ("pre", "bytes0", "bytes1", "bytes2"):
+        out[f] = beh[f].replace(bytes([mark]), b"x" * k)
+    for f in ("text0", "text1", "newline"):
+        out[f] = beh[f].replace(chr(mark), "x" * k)
+    out["strs0"] = [t.replace(chr(mark), "x" * k) for t in beh["strs0"]]
+    out["off"] = beh["off"] + (k - 1) * beh["text0"][:beh["off"]].count(chr(mark))
+    return out
+
+
+def collapse(obs, beh):
+    """Undo the rendering of the pad in what is reported back (replays stay small)."""
+    k = beh.get("padlen")
+    if not k or k < 16:
+        return obs
+    out = dict(obs)
+    for f, v in obs.items():
+        if isinstance(v, bytes):
+            out[f] = v.replace(b"x" * k, b"<pad>")
+        elif isinstance(v, str) and len(v) > 200:
+            out[f] = v.replace("x" * k, "<pad>")
+    return out
+
+
+def run_behaviour(compact_beh):
     """Replay one TLC behaviour on a real rope project and judge it."""
+    beh = expand(compact_beh)
+    r = _run_behaviour(beh)
+    if "beh" in r:
+        r["beh"] = compact_beh
+        r["obs"] = collapse(r["obs"], compact_beh)
+    return r
+
+
+def _run_behaviour(beh):
     cc = cross_check(beh)
     if cc is not None:
         return {"machinery": "spec vs CPython: " + cc, "item": describe(beh)}
@@ -392,8 +441,15 @@ def key_of(beh, clause, deviation):
     return {"clause": clause, "deviation": deviation, "op": beh["act"]["op"],
             "undo": beh["act"]["undo"] if clause == "UndoRestores" else "-",
             "construct": cookie_case(f0, beh["enc"]), "nl": f0["nl"], "bom": f0["bom"],
-            "converted_outside": bool(beh["pre"]),
+            "converted_outside": bool(beh["pre"]), "first_line_length": first_line_class(beh),
             "cookie_encoding": codec_of(f0["spelling"]), "final": f0["final"]}
+
+
+def first_line_class(beh):
+    if beh["file0"]["layout"] not in ("l1", "p2l"):
+        return "short"
+    n = 2 + beh.get("padlen", 1)
+    return "short" if n < 100 else "<4095" if n < 4095 else "4095" if n == 4095 else "4096" if n == 4096 else ">4096"
 
 
 def codec_of(spelling):
@@ -405,6 +461,7 @@ def codec_of(spelling):
 def describe(beh):
     """JSON-able rendering of a behaviour for replays and samples."""
     out = {k: beh[k] for k in ("file0", "enc", "effective", "act", "off", "undone", "slice")}
+    out["padlen"] = beh.get("padlen", 0)
     for k in ("pre", "bytes0", "bytes1", "bytes2"):
         out[k] = beh[k].decode("latin-1").encode("unicode_escape").decode("ascii")
     out["text1"] = beh["text1"]
@@ -431,6 +488,10 @@ class Acc:
         self.samples = []
 
     def replay(self, behs, tier):
+        padded = [b for b in behs if bytes([b["padmark"]]) in b["bytes0"]]
+        if padded:
+            behs[:] = [b for b in behs if bytes([b["padmark"]]) not in b["bytes0"]] + \
+                      [dict(b, padlen=k) for b in padded for k in PAD_LENGTHS]
         behs.sort(key=lambda b: (b["slice"], json.dumps(describe(b), sort_keys=True)))
         self.total += len(behs)
         if tier == "quick" and len(behs) > QUICK_SAMPLE:
